@@ -144,6 +144,8 @@ def run(tier, seed):
             key = f"{kind}:{what.split(' seq1=')[0].split(' value ')[0][:60]}"
             violations.append({"key": key, "what": f"draws {chs}: {what}", "case": {"kind": kind, "choices": chs}})
     total = sum(per.values())
+    if per["init"] < 1000 or per["ping"] < 1000 or per["account"] < 10:
+        raise loader.HarnessError(f"the random source of generate() is not owned by the harness (outcome trees: {per})")
     # two sample leaves written out
     m = _install()
     samples = []
